@@ -3,26 +3,28 @@ import CbModel.Heap
 namespace CbProofs.Heap
 open CbModel.Heap
 
+variable {α : Type}
+
 /-! ### lens lemmas for `get` / `set` -/
 
-theorem get_append (p r : Path) (t : Val) : get (p ++ r) t = (get p t).bind (get r) := by
+theorem get_append (p r : Path) (t : Val α) : get (p ++ r) t = (get p t).bind (get r) := by
   induction p generalizing t with
   | nil => simp [CbModel.Heap.get]
   | cons i p ih =>
     cases t with
-    | int n => simp [CbModel.Heap.get]
+    | leaf n => simp [CbModel.Heap.get]
     | node cs =>
       simp only [List.cons_append, CbModel.Heap.get]
       cases h : cs[i]? with
       | none => simp
       | some c => simp [ih]
 
-theorem get_set_same (p : Path) (t nv : Val) (h : (get p t).isSome) : get p (set p t nv) = some nv := by
+theorem get_set_same (p : Path) (t nv : Val α) (h : (get p t).isSome) : get p (set p t nv) = some nv := by
   induction p generalizing t with
   | nil => simp [CbModel.Heap.get, CbModel.Heap.set]
   | cons i p ih =>
     cases t with
-    | int n => simp [CbModel.Heap.get] at h
+    | leaf n => simp [CbModel.Heap.get] at h
     | node cs =>
       simp only [CbModel.Heap.get] at h
       simp only [CbModel.Heap.get, CbModel.Heap.set, List.getElem?_modify_eq]
@@ -32,7 +34,7 @@ theorem get_set_same (p : Path) (t nv : Val) (h : (get p t).isSome) : get p (set
         simp only [hc, Option.bind_some] at h
         simp [ih c h]
 
-theorem get_set_disjoint (p q : Path) (t nv : Val) (h : Disjoint p q) : get q (set p t nv) = get q t := by
+theorem get_set_disjoint (p q : Path) (t nv : Val α) (h : Disjoint p q) : get q (set p t nv) = get q t := by
   induction p generalizing t q with
   | nil => simp [Disjoint] at h
   | cons i p ih =>
@@ -40,7 +42,7 @@ theorem get_set_disjoint (p q : Path) (t nv : Val) (h : Disjoint p q) : get q (s
     | nil => simp [Disjoint] at h
     | cons j q =>
       cases t with
-      | int n => simp [CbModel.Heap.get, CbModel.Heap.set]
+      | leaf n => simp [CbModel.Heap.get, CbModel.Heap.set]
       | node cs =>
         simp only [CbModel.Heap.get, CbModel.Heap.set]
         by_cases hij : i = j
@@ -56,7 +58,7 @@ theorem get_set_disjoint (p q : Path) (t nv : Val) (h : Disjoint p q) : get q (s
           | some c => simp [ih q c hd]
         · rw [List.getElem?_modify_ne (h := hij)]
 
-theorem get_set_below (p r : Path) (t nv : Val) (h : (get p t).isSome) :
+theorem get_set_below (p r : Path) (t nv : Val α) (h : (get p t).isSome) :
     get (p ++ r) (set p t nv) = get r nv := by
   rw [get_append, get_set_same p t nv h]; rfl
 
@@ -89,15 +91,15 @@ theorem disjoint_append_left (p q r : Path) (h : Disjoint p q) : Disjoint (p ++ 
 /-! ### `sameShape` -/
 
 mutual
-theorem sameShape_refl : ∀ v : Val, sameShape v v = true
-  | .int _ => by simp [sameShape]
+theorem sameShape_refl : ∀ v : Val α, sameShape v v = true
+  | .leaf _ => by simp [sameShape]
   | .node cs => by simp only [sameShape]; exact sameShapeL_refl cs
-theorem sameShapeL_refl : ∀ cs : List Val, sameShapeL cs cs = true
+theorem sameShapeL_refl : ∀ cs : List (Val α), sameShapeL cs cs = true
   | [] => by simp [sameShapeL]
   | c :: cs => by simp only [sameShapeL, Bool.and_eq_true]; exact ⟨sameShape_refl c, sameShapeL_refl cs⟩
 end
 
-theorem sameShapeL_modify (cs : List Val) (i : Nat) (f : Val → Val) (c : Val)
+theorem sameShapeL_modify (cs : List (Val α)) (i : Nat) (f : Val α → Val α) (c : Val α)
     (hc : cs[i]? = some c) (hf : sameShape c (f c) = true) :
     sameShapeL cs (cs.modify i f) = true := by
   induction cs generalizing i with
@@ -114,7 +116,7 @@ theorem sameShapeL_modify (cs : List Val) (i : Nat) (f : Val → Val) (c : Val)
       simp only [List.modify_succ_cons, sameShapeL, Bool.and_eq_true]
       exact ⟨sameShape_refl a, ih i hc⟩
 
-theorem sameShape_set (p : Path) (t v nv : Val) (hg : get p t = some v) (hsh : sameShape v nv = true) :
+theorem sameShape_set (p : Path) (t v nv : Val α) (hg : get p t = some v) (hsh : sameShape v nv = true) :
     sameShape t (set p t nv) = true := by
   induction p generalizing t with
   | nil =>
@@ -123,7 +125,7 @@ theorem sameShape_set (p : Path) (t v nv : Val) (hg : get p t = some v) (hsh : s
     simpa [CbModel.Heap.set] using hsh
   | cons i p ih =>
     cases t with
-    | int n => simp [CbModel.Heap.get] at hg
+    | leaf n => simp [CbModel.Heap.get] at hg
     | node cs =>
       simp only [CbModel.Heap.get] at hg
       cases hc : cs[i]? with
@@ -133,7 +135,7 @@ theorem sameShape_set (p : Path) (t v nv : Val) (hg : get p t = some v) (hsh : s
         simp only [CbModel.Heap.set, sameShape]
         exact sameShapeL_modify cs i _ c hc (ih c hg)
 
-theorem sameShapeL_getElem? (as bs : List Val) (h : sameShapeL as bs = true) (i : Nat) :
+theorem sameShapeL_getElem? (as bs : List (Val α)) (h : sameShapeL as bs = true) (i : Nat) :
     (as[i]? = none ∧ bs[i]? = none) ∨
       ∃ a b, as[i]? = some a ∧ bs[i]? = some b ∧ sameShape a b = true := by
   induction as generalizing bs i with
@@ -150,19 +152,19 @@ theorem sameShapeL_getElem? (as bs : List Val) (h : sameShapeL as bs = true) (i 
       | zero => exact Or.inr ⟨a, b, by simp, by simp, h.1⟩
       | succ i => simpa using ih bs h.2 i
 
-theorem sameShape_get_isSome (t u : Val) (p : Path) (h : sameShape t u = true) :
+theorem sameShape_get_isSome (t u : Val α) (p : Path) (h : sameShape t u = true) :
     (get p t).isSome = (get p u).isSome := by
   induction p generalizing t u with
   | nil => simp [CbModel.Heap.get]
   | cons i p ih =>
     cases t with
-    | int n =>
+    | leaf n =>
       cases u with
-      | int m => simp [CbModel.Heap.get]
+      | leaf m => simp [CbModel.Heap.get]
       | node bs => simp [sameShape] at h
     | node as =>
       cases u with
-      | int m => simp [sameShape] at h
+      | leaf m => simp [sameShape] at h
       | node bs =>
         simp only [sameShape] at h
         simp only [CbModel.Heap.get]
@@ -173,19 +175,19 @@ theorem sameShape_get_isSome (t u : Val) (p : Path) (h : sameShape t u = true) :
 
 /-! ### states -/
 
-theorem resolve_write (s : St) (a b : Acc) (n : Int) : resolve (write s a n) b = resolve s b := by
+theorem resolve_write (s : St α) (a b : Acc) (n : α) : resolve (write s a n) b = resolve s b := by
   cases b <;> (simp only [write]; cases resolve s a <;> simp [resolve])
 
-theorem write_root (s : St) (a : Acc) (p : Path) (n : Int) (ha : resolve s a = some p) :
-    (write s a n).root = set p s.root (.int n) := by
+theorem write_root (s : St α) (a : Acc) (p : Path) (n : α) (ha : resolve s a = some p) :
+    (write s a n).root = set p s.root (.leaf n) := by
   simp [write, ha]
 
-theorem read_write (s : St) (a b : Acc) (p q : Path) (n : Int)
+theorem read_write (s : St α) (a b : Acc) (p q : Path) (n : α)
     (ha : resolve s a = some p) (hb : resolve s b = some q) :
-    read (write s a n) b = get q (set p s.root (.int n)) := by
+    read (write s a n) b = get q (set p s.root (.leaf n)) := by
   simp [CbModel.Heap.read, resolve_write, hb, write_root s a p n ha]
 
-theorem read_eq_some (s : St) (a : Acc) (v : Val) (h : read s a = some v) :
+theorem read_eq_some (s : St α) (a : Acc) (v : Val α) (h : read s a = some v) :
     ∃ p, resolve s a = some p ∧ get p s.root = some v := by
   simp only [CbModel.Heap.read] at h
   cases hr : resolve s a with
